@@ -578,7 +578,13 @@ func (e *Exec) typeAssert(x *ssa.TypeAssert, st *State) Value {
 	}
 	v := e.freshValue("assert", x.AssertedType, st)
 	if x.CommaOk {
-		return TupleV{v, Scalar{Fresh("assert.ok", BoolSort)}}
+		ok := Fresh("assert.ok", BoolSort)
+		if pv, isPtr := v.(PtrV); isPtr {
+			// a successful assertion to a pointer type yields the (non-nil interface's) pointer;
+			// a typed nil pointer inside an interface is not modelled
+			e.ctx.assume(Imp(ok, Lt(ConstI(0, Ref), pv.Addr)))
+		}
+		return TupleV{v, Scalar{ok}}
 	}
 	e.safe("typeassert", st, Fresh("assert.ok", BoolSort), x.Pos())
 	return v
